@@ -92,6 +92,10 @@ structure State where
   clocked : Nat → List NodePort
   /-- the clock object has not been destroyed (`Clock::~Clock`, Clock.cpp:41-45) -/
   calive : Nat → Bool
+  /-- node class as far as clocks care: 0 ordinary, 1 `Node_Signal2Clk`, 2 `Node_Signal2Rst` -/
+  dk : Nat → Nat
+  /-- `Clock::m_clockDriver` (`drv 1 c`) and `Clock::m_resetDriver` (`drv 2 c`), Clock.h:153-155 -/
+  drv : Nat → Nat → Option Nat
   /-- `Circuit::m_nodes` (storage order) -/
   order : List Nat
   /-- `Circuit::m_nextNodeId` -/
@@ -117,6 +121,8 @@ def State.init : State where
   nclocks := 0
   clocked := fun _ => []
   calive := fun _ => false
+  dk := fun _ => 0
+  drv := fun _ _ => none
   order := []
   nextId := 0
 
@@ -146,6 +152,13 @@ def ClockInv (size : Nat) (alive : Nat → Bool) (numClk : Nat → Nat) (clk : N
 def CAInv (size : Nat) (alive : Nat → Bool) (numClk : Nat → Nat) (clk : Nat → Nat → Option Nat) (calive : Nat → Bool) : Prop :=
   ∀ h, h < size → alive h = true → ∀ p, p < numClk h → ∀ c ∈ clk h p, calive c = true
 
+/-- the logic clock / reset driver a (live) clock reports is a live `Node_Signal2Clk` / `Node_Signal2Rst` whose clock port 0 is attached
+to that very clock (and hence, by `ClockInv`, registered in its `m_clockedNodes`) -/
+def DriverInv (size : Nat) (alive : Nat → Bool) (dk : Nat → Nat) (numClk : Nat → Nat) (clk : Nat → Nat → Option Nat)
+    (nclocks : Nat) (calive : Nat → Bool) (drv : Nat → Nat → Option Nat) : Prop :=
+  ∀ c, c < nclocks → calive c = true → ∀ k, k < 3 → k ≠ 0 → ∀ d ∈ drv k c,
+    d < size ∧ alive d = true ∧ dk d = k ∧ 0 < numClk d ∧ clk d 0 = some c
+
 /-- node ids are unique among live nodes and below the allocation counter -/
 def IdInv (size : Nat) (alive : Nat → Bool) (nid : Nat → Nat) (nextId : Nat) : Prop :=
   (∀ h, h < size → alive h = true → nid h < nextId) ∧
@@ -161,7 +174,8 @@ def GInv (s : State) : Prop :=
   GroupInv s.size s.alive s.grp s.ngroups s.gnodes ∧
   ClockInv s.size s.alive s.numClk s.clk s.nclocks s.clocked ∧
   IdInv s.size s.alive s.nid s.nextId ∧
-  CAInv s.size s.alive s.numClk s.clk s.calive
+  CAInv s.size s.alive s.numClk s.clk s.calive ∧
+  DriverInv s.size s.alive s.dk s.numClk s.clk s.nclocks s.calive s.drv
 
 /-- the well-formedness invariant of property C09 -/
 def Inv (s : State) : Prop := GInv s ∧ OrderInv s.size s.alive s.order
@@ -177,6 +191,8 @@ instance (size alive nid nextId) : Decidable (IdInv size alive nid nextId) := by
   unfold IdInv; infer_instance
 instance (size alive numClk clk calive) : Decidable (CAInv size alive numClk clk calive) := by
   unfold CAInv; infer_instance
+instance (size alive dk numClk clk nclocks calive drv) : Decidable (DriverInv size alive dk numClk clk nclocks calive drv) := by
+  unfold DriverInv; infer_instance
 instance (size alive order) : Decidable (OrderInv size alive order) := by
   unfold OrderInv; infer_instance
 instance (s : State) : Decidable (GInv s) := by unfold GInv; infer_instance
@@ -351,6 +367,9 @@ def removeRef (s : State) (h : Nat) : Res State :=
 def destroyNode (s : State) (h : Nat) : Res State :=
   if ¬ s.live h then .error .ub else
   if s.refs h ≠ 0 then .error .abort else
+  -- a `Node_Signal2Clk/Rst` that is bound to a clock `hasSideEffects()`; nobody deletes such a node (its clock would keep a dangling
+  -- `m_clockDriver`): modelled as a precondition of `delete`
+  if s.dk h ≠ 0 ∧ s.clk h 0 ≠ none then .error .ub else
   (moveToGroup s h none).bind fun s1 =>
   (detachRange s1 h (List.range (s1.numClk h))).bind fun s2 =>
   (resizeInputs s2 h 0).bind fun s3 =>
@@ -361,7 +380,7 @@ def destroyNode (s : State) (h : Nat) : Res State :=
 
 /-- `Circuit::createNode<T>(…)` (Circuit.h:223-228) with `BaseNode(numInputs, numOutputs)` (Node.cpp:36-40):
 fresh storage, ports unconnected, no group, `nClk` null clock ports, next id. Returns the new handle `s.size`. -/
-def createNode (s : State) (sig : Bool) (nIn nOut nClk : Nat) : State :=
+def createNode (s : State) (sig : Bool) (nIn nOut nClk : Nat) (k : Nat := 0) : State :=
   let h := s.size
   { s with
     size := h + 1
@@ -369,6 +388,7 @@ def createNode (s : State) (sig : Bool) (nIn nOut nClk : Nat) : State :=
     nid := upd s.nid h s.nextId
     nextId := s.nextId + 1
     isSig := upd s.isSig h sig
+    dk := upd s.dk h k
     refs := upd s.refs h 0
     numIn := upd s.numIn h nIn
     inp := clearFrom s.inp h 0 none
@@ -386,7 +406,22 @@ def createGroup (s : State) : State :=
 
 /-- `Circuit::createClock` : a new clock nobody is attached to -/
 def createClock (s : State) : State :=
-  { s with nclocks := s.nclocks + 1, clocked := upd s.clocked s.nclocks [], calive := upd s.calive s.nclocks true }
+  { s with nclocks := s.nclocks + 1, clocked := upd s.clocked s.nclocks [], calive := upd s.calive s.nclocks true,
+           drv := fun k c => if c = s.nclocks then none else s.drv k c }
+
+/-- `Clock::setLogicClockDriver` (`k = 1`, Clock.cpp:165-171) / `Clock::setLogicResetDriver` (`k = 2`, Clock.cpp:173-179):
+the previous driver node is released (`setClock(nullptr)` = `attachClock(nullptr, 0)`), the new one stored and attached.
+C++ preconditions: `driver` points to a live node of the right class; a driver node serves one clock only (the frontend creates a
+fresh node for every override). -/
+def setLogicDriver (s : State) (k c d : Nat) : Res State :=
+  if ¬ (k < 3 ∧ k ≠ 0 ∧ c < s.nclocks ∧ s.calive c = true) then .error .ub else
+  if ¬ (s.live d ∧ s.dk d = k ∧ 0 < s.numClk d) then .error .ub else
+  if ¬ (∀ c2, c2 < s.nclocks → s.calive c2 = true → c2 ≠ c → s.drv k c2 ≠ some d) then .error .ub else
+  let s1 : Res State :=
+    match s.drv k c with
+    | none => .ok s
+    | some old => attachClock s old 0 none
+  s1.bind fun s1 => attachClock { s1 with drv := upd2 s1.drv k c (some d) } d 0 (some c)
 
 /-- `while (!m_clockedNodes.empty()) m_clockedNodes.anyOrder().begin()->node->detachClock(…port);` (Clock.cpp:43-44); the set is
 unordered, the model takes the entries in list order (every order ends in the same state) -/
@@ -408,7 +443,7 @@ the same number of input / output / clock ports, the same output types, nothing 
 def cloneNode (s : State) (src : Nat) : Res State :=
   if ¬ s.live src then .error .ub else
   let h := s.size
-  let s1 := createNode s (s.isSig src) (s.numIn src) (s.numOut src) (s.numClk src)
+  let s1 := createNode s (s.isSig src) (s.numIn src) (s.numOut src) (s.numClk src) (s.dk src)
   let s2 := { s1 with ctype := fun x y => if x = h then s.ctype src y else s1.ctype x y }
   moveToGroup s2 h (some 0)
 
@@ -527,7 +562,7 @@ def cullOrphanedSignalNodes (s : State) : Res State :=
 /-! ## Operation language -/
 
 inductive Op where
-  | createNode (sig : Bool) (nIn nOut nClk : Nat)
+  | createNode (sig : Bool) (nIn nOut nClk : Nat) (dk : Nat := 0)
   | createGroup
   | createClock
   | connect (h i : Nat) (d : Option NodePort)
@@ -548,10 +583,11 @@ inductive Op where
   | cloneNode (src : Nat)
   | copySubnet (inputs outputs : List NodePort) (copyClocks : Bool)
   | destroyClock (c : Nat)
+  | setLogicDriver (k c d : Nat)
 deriving Repr
 
 def step (s : State) : Op → Res State
-  | .createNode sig a b c => .ok (createNode s sig a b c)
+  | .createNode sig a b c k => .ok (createNode s sig a b c k)
   | .createGroup => .ok (createGroup s)
   | .createClock => .ok (createClock s)
   | .connect h i d => connectInput s h i d
@@ -562,9 +598,10 @@ def step (s : State) : Op → Res State
   | .bypass h o i => bypassOutputToInput s h o i
   | .setType h o t => setOutputConnectionType s h o t
   | .moveToGroup h g => moveToGroup s h g
-  | .attachClock h p c => attachClock s h p c
-  | .detachClock h p => detachClock s h p
-  | .addClock h c => addClock s h c
+  -- the clock port of a `Node_Signal2Clk/Rst` is managed by `Clock::setLogic…Driver` only (precondition of these calls)
+  | .attachClock h p c => if s.dk h ≠ 0 then .error .ub else attachClock s h p c
+  | .detachClock h p => if s.dk h ≠ 0 then .error .ub else detachClock s h p
+  | .addClock h c => if s.dk h ≠ 0 then .error .ub else addClock s h c
   | .addRef h => addRef s h
   | .removeRef h => removeRef s h
   | .eraseNode idx => eraseNode s idx
@@ -572,6 +609,7 @@ def step (s : State) : Op → Res State
   | .cloneNode src => cloneNode s src
   | .copySubnet ins outs cc => copySubnet s ins outs cc
   | .destroyClock c => destroyClock s c
+  | .setLogicDriver k c d => setLogicDriver s k c d
 
 /-- run a history; an operation that throws leaves the state as it was (all modelled guards are checked before the first
 mutation) and the history continues, exactly like a caller that catches the exception; `.ub/.abort/.diverge` end it. -/
